@@ -236,6 +236,9 @@ pub enum G {
     UserTag(u32),
     /// fngoal probe: check the user-hook invariants of C22 in the state that reaches it.
     Probe(u32),
+    /// fngoal observer: log the walked query variables of the state that reaches it, in the
+    /// order states reach it (observation point inside the search, before any continuation).
+    Observe(u32),
 }
 
 #[derive(Clone, Debug, PartialEq, Eq, Hash, Serialize, Deserialize)]
